@@ -82,7 +82,18 @@ def _use_everything(rec, commands):
     from pamqp import exceptions, frame, header
     n = 0
     for idx, cls in sorted(commands.INDEX_MAPPING.items()):
-        for make in (lambda: cls(),):
+        sp = refspec.METHODS.get(idx)
+        makes = [lambda: cls()]
+        if sp is not None:
+            # every bit argument set / cleared (nowait, passive, if_unused...)
+            # and a generated full assignment, not just the defaults
+            for flag in (True, False):
+                vals = gf.assignment(random.Random(idx), sp)
+                for a, t, _ in sp.args:
+                    if t == 'bit' and a != 'insist':
+                        vals[a] = flag
+                makes.append(lambda vals=vals: cls(**vals))
+        for make in makes:
             c = call(make)
             if not c.ok:
                 continue
